@@ -506,7 +506,11 @@ func (h *Hist) genTx() *histTx {
 				return nil
 			}
 			tx.req.Signer = owner
-			tx.req.Msgs = []sdk.Msg{&lptypes.MsgClaimRewards{Sender: owner.Addr.String(), Ids: []uint64{pos.Id}}}
+			lids := []uint64{pos.Id}
+			if r.Intn(4) == 0 {
+				lids = append(lids, pos.Id) // the same position named twice
+			}
+			tx.req.Msgs = []sdk.Msg{&lptypes.MsgClaimRewards{Sender: owner.Addr.String(), Ids: lids}}
 			tx.f = J{"id": pos.Id}
 		default:
 			var liq, sl []*lptypes.PositionRequest
@@ -608,6 +612,9 @@ func (h *Hist) genTx() *histTx {
 		}
 		if r.Intn(2) == 0 {
 			ids = append(ids, 32767) // the stablestake "pool"
+		}
+		if len(ids) > 0 && r.Intn(4) == 0 {
+			ids = append(ids, ids[r.Intn(len(ids))]) // the same pool named twice in one claim: it has one credit to pay out, not two
 		}
 		tx.req.Msgs = []sdk.Msg{&mctypes.MsgClaimRewards{Sender: u.Addr.String(), PoolIds: ids}}
 		tx.f = J{"pools": ids}
